@@ -297,7 +297,7 @@ impl Property for C14 {
         }
     }
     fn required_labels(&self, _tier: Tier) -> Vec<&'static str> {
-        vec!["nontrivial", "leaves>30", "leaf-outside-root-subtree", "duplicate-leaves", "leaf==root", "leaf-is-ancestor-of-leaf", "retained-modifier-term-with-record", "record-only-on-retained-modifier-root", "terms-pruned", "record-dropped", "leaves>255", "custom-modifier-roots", "name-longer-than-255-bytes", "direct-parents>255", "depth>255"]
+        vec!["nontrivial", "more-than-30-terms-retained-and-a-record-dropped", "leaves>30", "leaf-outside-root-subtree", "duplicate-leaves", "leaf==root", "leaf-is-ancestor-of-leaf", "retained-modifier-term-with-record", "record-only-on-retained-modifier-root", "terms-pruned", "record-dropped", "leaves>255", "custom-modifier-roots", "name-longer-than-255-bytes", "direct-parents>255", "depth>255"]
     }
     fn run_generated(&self, tier: Tier, seed: u64, n: u64, stats: &mut Stats) -> Option<(Value, Failure)> {
         run_typed(strategy(tier), seed, n, stats, check)
